@@ -10,8 +10,11 @@
 #define SENV_ROW 1
 #define SENV_DONE 2
 struct senv_frame { int dirty; int is_savepoint; };
-struct sqlite3 { int level; struct senv_frame frames[SENV_MAXLEVEL]; int committed; int mods; int steps; int other_exec; int nstmt; int finalized; int misuse; int overflow; int closed; int last_changes; struct sqlite3_stmt *last_row_stmt; };
+struct sqlite3 { int level; struct senv_frame frames[SENV_MAXLEVEL]; int committed; int mods; int steps; int other_exec; int nstmt; int finalized; int misuse; int overflow; int closed; int last_changes; struct sqlite3_stmt *last_row_stmt; struct sqlite3_stmt *last_mod_stmt; };
 struct sqlite3_stmt { struct sqlite3 *db; const char *sql; int modifying; int state; int rows; int last_rc; int last_rc_hard;
                       const void *bound[SENV_MAXBIND]; void (*dtor[SENV_MAXBIND])(void *); int bound_set[SENV_MAXBIND]; sqlite3_int64 ival[SENV_MAXBIND]; };
-extern int senv_benign;
+extern int senv_benign, senv_fail_mode, senv_fail_at, senv_calls;
+extern int (*senv_step_hook)(sqlite3_stmt *s);
+extern int (*senv_int_hook)(sqlite3_stmt *s, int col, int *out);
+extern const void *(*senv_text16_hook)(sqlite3_stmt *s, int col, int *bytes);
 #endif
